@@ -81,11 +81,46 @@ def search(kind, n, origins, prefill, threads, after, segs, symptom, max_runs=40
     for i, j in itertools.combinations(range(len(base)), 2):
         for d1 in deltas[:3]:
             for d2 in deltas[:3]:
-                if tried >= max_runs: return None, "symptom not reproduced natively in %d controlled runs" % tried, tried
+                if tried >= max_runs:
+                    found, why2, rounds = stress(kind, n, origins, prefill, threads, after, symptom)
+                    if found: return found, "", tried + rounds
+                    return None, "symptom not reproduced natively in %d controlled runs; %s" % (tried, why2), tried
                 sg = [list(x) for x in base]; sg[i][1] = max(0, sg[i][1] + d1); sg[j][1] = max(0, sg[j][1] + d2)
                 s, h = attempt(sg)
                 if s: return {"segments": sg, "history": h, "symptom": s}, "", tried
-    return None, "symptom not reproduced natively in %d controlled runs" % tried, tried
+    found, why2, rounds = stress(kind, n, origins, prefill, threads, after, symptom)
+    if found: return found, "", tried + rounds
+    return None, "symptom not reproduced natively in %d controlled runs; %s" % (tried, why2), tried
+
+
+def stress(kind, n, origins, prefill, threads, after, symptom, rounds=20000, timeout_s=120):
+    """fallback: uncontrolled replay -- the same thread programs on free-running OS threads, a fresh object per round. Needed when
+    the model schedule switches threads between two shared accesses of ONE statement, where no yield hook can sit."""
+    ok, err = build()
+    if not ok: return None, "replayer does not build: " + err, 0
+    txt = spec_text(kind, n, origins, prefill, threads, after, []).replace("segments \n", "") + "free %d\n" % rounds
+    try:
+        p = subprocess.run([BIN], input=txt, stdout=subprocess.PIPE, stderr=subprocess.PIPE, text=True, timeout=timeout_s)
+        out = p.stdout
+    except subprocess.TimeoutExpired as e:
+        out = (e.stdout or b"").decode() if isinstance(e.stdout, bytes) else (e.stdout or "")
+    cur = None; n_rounds = 0
+    def flush(cur):
+        if cur is None: return None
+        return symptom({"events": cur["ev"], "stuck": [], "panics": cur["panics"], "timeout": False})
+    for l in out.splitlines():
+        f = l.split()
+        if not f: continue
+        if f[0] == "round":
+            s = flush(cur)
+            if s: return {"segments": "free-running threads, round %d" % (n_rounds - 1), "history": {"events": cur["ev"]}, "symptom": s}, "", n_rounds
+            cur = {"ev": [], "panics": []}; n_rounds += 1
+        elif f[0] == "ev" and cur is not None:
+            cur["ev"].append({"thread": int(f[1]), "call": int(f[2]), "op": f[3], "arg": int(f[4]), "first": int(f[5]), "last": int(f[6]), "res": f[7:]})
+        elif f[0] == "panic" and cur is not None: cur["panics"].append(" ".join(f[1:]))
+    s = flush(cur)
+    if s: return {"segments": "free-running threads, round %d" % (n_rounds - 1), "history": {"events": cur["ev"]}, "symptom": s}, "", n_rounds
+    return None, "symptom not reproduced in %d free-running rounds either" % n_rounds, n_rounds
 
 
 # ---- native oracles (plain Python over the observed history) -------------------------------------------------
